@@ -238,6 +238,27 @@ def main(root, args):
     # 4. Go
     res, gdetail = go_stage(root, pid, tier, seed, replay, work)
 
+    # the golden-corpus leg (C09; its redactable sections speak for C06, its report sections for C15)
+    if pid in ("C09", "C06", "C15") and res is not None:
+        try:
+            p = subprocess.run([sys.executable, os.path.join(root, "tools", "golden.py"), pid], stdout=subprocess.PIPE,
+                               stderr=subprocess.PIPE, text=True, timeout=3000)
+            g = json.loads(p.stdout)
+        except Exception as ex:
+            g = {"failures": [{"file": "-", "case": "-", "section": "-", "detail": "golden leg did not run: %r" % (ex,)}], "sections_compared": 0, "cases": 0}
+        ev = res.setdefault("oracle_evaluations", {})
+        ev[pid + ".golden_sections"] = g.get("sections_compared", 0)
+        ev[pid + ".golden_cases"] = g.get("cases", 0)
+        for f in g.get("failures", []):
+            sig = "%s:golden:%s" % (pid, f["file"])
+            res["oracle_failures"] = (res.get("oracle_failures") or []) + [{
+                "case": "golden " + f["file"] + " / " + f["case"], "oracle": pid + ".golden", "input": f["case"], "signature": sig,
+                "detail": "the repository's reference rendering differs in section %r: %s" % (f["section"], f["detail"])}]
+            res["n_oracle_failures"] = (res.get("n_oracle_failures") or 0) + 1
+            fs = res.get("failure_signatures") or {}
+            fs[sig] = fs.get(sig, 0) + 1
+            res["failure_signatures"] = fs
+
     known = load_known(root)
     known_sigs = {k["signature"]: k for k in known.get("known", []) if k.get("property") == pid}
 
